@@ -723,7 +723,9 @@ func (h *c20H) reopenA() error {
 		h.a, err = OpenLedger(logging.Base(), h.aPath, false, h.init, h.cfg)
 		return err
 	}
-	return h.a.reloadLedger()
+	err := h.a.reloadLedger()
+	h.a.trackers.waitAccountsWriting()
+	return err
 }
 
 func (h *c20H) validateCfg(name string, blk bookkeeping.Block) (*ledgercore.StateDelta, error) {
